@@ -480,7 +480,7 @@ def St.setDV (st : St) (k : Key) (v : Int) : St :=
       | some cx => st1.notify [(k.1, cx)]
       | none => st1
     let st3 := st2.modDV k (fun d => { d with valVer := d.valVer + 1, tLast := st2.t, value := v })
-    st3.notify dv0.deps
+    st3.notify (match st2.dv? k with | some d => d.deps | none => [])
 
 /-- one iteration of the loop in `StateImpl::autoUpdateDiscreteVariables` -/
 def St.autoUpdateOne (st : St) (k : Key) : St :=
